@@ -820,7 +820,8 @@ def exec_cell(rec):
             return out
 
         def call():
-            X = np.array([lat[j] for j in sorted(rng.choice(len(lat), size=2, replace=False))], dtype=np.float64).T / 8.0
+            X = np.array([lat[j] for j in sorted(rng.choice(len(lat), size=int(rec.get('nclpts', 2)), replace=False))],
+                         dtype=np.float64).T / 8.0
             R = [[[field_records(df) for df in e.gbasis(mapping, X, i, tind=np.array([c], dtype=np.int64))] for i in idx]
                  for c in range(nt)]
             lists = []
@@ -932,7 +933,7 @@ def recipes(T, tier, seed):
         kind = info['kind']
         if info['leaf'] and info['fam'] != 'Global':
             out.append({'driver': 'ref', 'spec': spec, 'info': info, 'seed': seed + 1000 + n,
-                        'npts': 4 if quick else 0, 'nhist': 6 if quick else 64})
+                        'npts': 4 if quick else 0, 'nhist': 4 if quick else 64})
         geos = ['rect'] if info['geo'] == 'rect' else \
             (['affine', 'nonaffine'] if kind in ('quad', 'hex') and not info['anyglobal'] else ['affine'])
         if info['leaf'] and not info['anyglobal'] and kind in SECOND:
@@ -944,11 +945,11 @@ def recipes(T, tier, seed):
                 r = {'driver': 'cell', 'spec': spec, 'info': info, 'seed': seed + 5000 + 40 * n + 4 * g + v,
                      'mesh': mesh_recipe(kind, geo, seed + 100 + 29 * n + 4 * g + v), 'variant': v,
                      'ncell': 2 if (quick or big) else 3,               # always a positively and a negatively oriented cell
-                     'nmap': 2 if quick else 4, 'nder': (1 if big else 2) if quick else (2 if big else 4),
+                     'nmap': 2 if quick else 4, 'nder': 1 if quick else (2 if big else 4),
                      # local indices per call history / per-element stencil (all of them unless the element is large)
-                     'nhist': (3 if big else 6) if quick else (6 if big else 16),
+                     'nhist': (2 if big else 4) if quick else (6 if big else 16),
                      'npc': (8 if big else 64) if quick else (16 if big else 64),
-                     'ncl': (3 if big else 6) if quick else (8 if big else 16)}
+                     'ncl': (2 if big else 4) if quick else (8 if big else 16), 'nclpts': 1 if quick else 2}
                 if info['anyglobal']:
                     r['mesh2'] = mesh_recipe(kind, geo, seed + 100 + 29 * n + 4 * g + v + 17)
                 out.append(r)
